@@ -1,6 +1,7 @@
 package work
 
 import (
+	"bytes"
 	"encoding/hex"
 	"fmt"
 	"math/rand"
@@ -224,6 +225,31 @@ func craftedInputs() [][]byte {
 				out = append(out, append(f, 0x90, 'Z'))
 			}
 		}
+	}
+	// m references to ONE untyped map of n entries from typed map fields (each one has to be converted):
+	// the cost must not be n*m (indexes 157, 158)
+	{
+		b := []byte{0x57, 'H'}
+		for i := 0; len(b) < 30000; i++ {
+			b = append(b, 3, 'a'+byte(i%26), 'a'+byte(i/26%26), 'a'+byte(i/676%26), 0x91)
+		}
+		b = append(b, 'Z')
+		b = append(b, hspecHx("C x08 MpStrI32 x91 x01 m")...)
+		for len(b) < 65000 {
+			b = append(b, 0x60, 0x51, 0x91)
+		}
+		out = append(out, append(b, 'Z'))
+	}
+	// one 30000-character unknown field name and 35000 nested instances: the name must not be copied
+	// (into a lookup key, an error text, a log line) at every level
+	{
+		b := hspecHx("C x05 Inner x91")
+		b = append(b, 'S', 0x75, 0x30)
+		b = append(b, bytes.Repeat([]byte{'x'}, 30000)...)
+		for len(b) < 65000 {
+			b = append(b, 0x60)
+		}
+		out = append(out, b)
 	}
 	return out
 }
